@@ -210,18 +210,21 @@ EXTRA = {
            'direction call only routines of that key size / direction (K1).',
     'C02': ' Further clauses (DESIGN 3a): wrapper-constant matrix of the per-architecture hash entry points (X3), copy siblings (X5), field copies (X4).',
     'C03': ' Further clause (DESIGN 3a): key-size / direction tokens of C wrappers and manager slots agree with their callers (K1).',
+    'C04': ' Further clauses (DESIGN 3a): lane association in 262 assembled multi-buffer routines - a vector stored through the pointer of lane m holds data of '
+           'lane m only, followed through the transposition networks (unpack / shuffle / insert / extract modelled exactly on 32-bit slots, everything else '
+           'element-wise; unknown values never reported), and a per-lane pointer is written back into the array element it came from (V1/V2; decides K16).',
     'C05': ' Further clauses (DESIGN 3a): a job is stamped BEING_PROCESSED on every path to the stage dispatch (Q7); contiguous-slot counts come from the ring '
            'offset they advance (Q9); the parameter guards of the queue and burst functions are those of the reference tree (Q8).',
     'C06': ' Further clauses (DESIGN 3a): a stage handler is looked up from the suite id of the very job it is applied to, in the same expression (T7); '
            'assembly ORs single stage bits into job->status (J2); the burst guards, stale suite id included, are those of the reference tree (T9).',
     'C07': ' A second structural clause of in-place == out-of-place (DESIGN 3a, O1): no C routine reads its data through output-derived pointers in more '
-           'places than on the reference tree.',
+           'places than on the reference tree; C digest writers copy the word count of the selected SHA variant (P5).',
     'C08': ' Further clauses (DESIGN 3a): per-architecture versions of one function agree (X6); wrapper constants fit the file x algorithm matrix (X3); each '
            'variant records its own architecture in used_arch.',
     'C09': ' Further clauses (DESIGN 3a): job->src is used with its start offset by every entry point (O2), output-read discipline (O1), field copies (X4), '
            'handler lookup per job (T7).',
     'C11': ' Further clauses (DESIGN 3a): the 3GPP IV generators place BEARER / DIRECTION at the bit positions of the specifications and byte-swap COUNT / FRESH '
-           'whole (H7, a table of the specification\'s positions in the checker); key-size tokens of the GCM pre-computation wrappers (K1).',
+           'whole, the f9 / EIA3 generators XOR the direction bit (H7, a table of the specification\'s positions in the checker); key-size tokens of the GCM pre-computation wrappers (K1).',
     'C13': ' Further clauses (DESIGN 3a): every C function scrubs at least as many distinct locals of each type as on the reference tree and whole-array scrubs '
            'cover the array (S11/S12); copies of one routine agree (X5).',
     'C14': ' Further clauses (DESIGN 3a): a job is stamped BEING_PROCESSED before the stage dispatch on every path (J8); each failure keeps the error code the '
@@ -229,6 +232,7 @@ EXTRA = {
     'C15': ' Further clauses (DESIGN 3a): no manager is reset twice and the variants of one architecture reset the same managers (I1); every architecture init '
            'resets the error code before dispatching to a type init (I7); the per-architecture init functions agree (X6).',
     'C16': ' Further clause (DESIGN 3a): each variant records its own architecture in used_arch (P5).',
+    'C20': ' Further clause (DESIGN 3a): each row of a self-test vector table carries one size token and a loop over one table reads no other (F7).',
     'C17': ' Further clauses (DESIGN 3a): the per-manager half of the error code never depends on the process-wide half (G7); the session counter is advanced '
            'with a LOCKed read-modify-write (G8).',
 }
